@@ -278,7 +278,7 @@ func runSweeps(p *Program, pd *PropDef, base *Reporter) []ControlResult {
 						fnKey = fnKey[:j]
 					}
 				}
-				conflict := len(batch) >= batchSize || (c.def.Rule == "L1" && usedFn[fnKey])
+				conflict := len(batch) >= batchSize || ((c.def.Rule == "L1" || c.def.Rule == "ERR-USE") && usedFn[fnKey])
 				for _, b := range batch {
 					for _, e1 := range b.edits {
 						for _, e2 := range c.edits {
